@@ -19,7 +19,7 @@ RULE = (
     "stochastic transitions with shuffled dependency lists; colliding parameter names), solved by "
     "lcm and by an independent NumPy Bellman recursion, compared entry by entry through the "
     "documented layout (tolerance 1e-9 relative to max(1,|V|), -inf pattern of the last period "
-    "exact, jit=False vs jit=True 1e-12 in 10% of cases). Unsupported or knife-edge models are "
+    "exact, jit=False vs jit=True 1e-12 in 10% of cases; in another 10% a twin model with the same names but other table contents is solved first in the same process). Unsupported or knife-edge models are "
     "skipped (rejected, they do not use up budget). A case is non-trivial when T>=2 and (a filter "
     "or constraint removes some but not all choices of some state, or a next continuous state is "
     "strictly between nodes or outside a linear grid, or a stochastic row is non-degenerate); "
@@ -42,13 +42,21 @@ PROFILE_DROP = Profile(name="drop_filter", p_filter=1.0, filter_modes=("drop",),
                        min_periods=2, max_cont_states=1, max_cont_choices=1)
 
 
+PROFILE_MULTI = Profile(name="multi_filter", p_filter=1.0, filter_modes=("keep_all", "keep_all", "free"),
+                        p_period_filter=0.8, min_periods=3, max_cont_states=1, max_cont_choices=1, max_R=3)
+
+
 def strategy(tier):
+    multi = st.builds(
+        lambda spec: {"spec": spec.to_json(), "jit_off": False},
+        model_specs(PROFILE_MULTI),
+    )
     drop = st.builds(
         lambda spec: {"spec": spec.to_json(), "jit_off": False},
         model_specs(PROFILE_DROP),
     )
     base = st.builds(
-        lambda spec, jit: {"spec": spec.to_json(), "jit_off": jit == 0},
+        lambda spec, jit: {"spec": spec.to_json(), "jit_off": jit == 0, "twin_first": jit == 1},
         model_specs(PROFILE),
         st.integers(0, 9),
     )
@@ -56,7 +64,7 @@ def strategy(tier):
         lambda spec: {"spec": spec.to_json(), "jit_off": False, "infeasible_ok": True},
         model_specs(PROFILE_INFEASIBLE),
     )
-    return st.one_of(base, base, base, drop, drop, inf)
+    return st.one_of(base, base, base, drop, drop, multi, inf)
 
 
 TOL = 1e-9
@@ -209,6 +217,14 @@ def check(case):
     if not np.isfinite(ref.to_lcm_layout(ref.V[-1], spec.n_periods - 1)).all():
         classes.append("last_period_infeasible_state")
         nt = True
+    if case.get("twin_first"):
+        from ..ir import twin
+
+        try:
+            lcm_solve(twin(spec), jit=True)
+            classes.append("twin_model_solved_first")
+        except Exception:  # noqa: BLE001  (only a disturbance)
+            classes.append("twin_model_failed")
     sol = lcm_solve(spec, jit=True)
     msgs = compare_solution(spec, ref, sol)
     if case.get("jit_off") and not msgs:
